@@ -249,6 +249,10 @@ impl<'tcx> Ctx<'tcx> {
         v.push(("trait", jopt(trait_path)));
         v.push(("self", jopt(self_ty)));
         v.push(("res", jopt(resolved)));
+        if matches!(tcx.def_kind(did), DefKind::Fn | DefKind::AssocFn) {
+            let sig = tcx.fn_sig(did).instantiate_identity().skip_norm_wip();
+            v.push(("unsafe", jbool(!sig.safety().is_safe())));
+        }
         v
     }
 
